@@ -109,17 +109,20 @@ namespace pika::threads::detail {
 
         while (!exit_funcs_.empty())
         {
+            // Take the callback out of the list while the lock is held: add_thread_exit_callback
+            // may push a new front while the lock is released for the invocation below.
+            util::detail::function<void()> f = std::move(exit_funcs_.front());
+            exit_funcs_.pop_front();
             {
                 pika::detail::unlock_guard<std::unique_lock<pika::detail::spinlock>> ul(l);
 #if defined(PIKA_VERIF)
                 PIKA_VERIF_POINT(1312, this);    // unlocked, before invoking the front callback
 #endif
-                if (!exit_funcs_.front().empty()) exit_funcs_.front()();
+                if (!f.empty()) f();
 #if defined(PIKA_VERIF)
                 PIKA_VERIF_POINT(1313, this);    // unlocked, after the callback
 #endif
             }
-            exit_funcs_.pop_front();
         }
         ran_exit_funcs_ = true;
 #if defined(PIKA_VERIF)
